@@ -163,6 +163,21 @@ def bytes_summaries():
                 outs.append((s, Ref(Cell(sl, 'slice'))))
         return outs
 
+    @reg(r'^<\[u8\] as Index<(std::ops::)?Range<usize>>>::index$|^core::slice::index::<impl Index<(std::ops::)?Range<usize>> for \[u8\]>::index$|^<Vec<u8> as Index<(std::ops::)?Range<usize>>>::index$')
+    def v_index_range(ex, st, fn, argv):
+        v = as_bytes(ex, st, argv[0])
+        rng = argv[1]
+        lo, hi = rng.fields[0], rng.fields[1]
+        outs = []
+        for (s, c, bad) in ex.fork_on(st, z3.Or(z3.UGT(lo.bv, hi.bv), z3.UGT(hi.bv, v.len)), (argv[0], lo, hi)):
+            if bad:
+                outs.append((s, Panic('slice index range out of bounds')))
+            else:
+                vv = as_bytes(ex, s, c[0])
+                base, start = (vv, vv.abs) if isinstance(vv, ByteVec) else (vv.base, vv.abs_start)
+                outs.append((s, Ref(Cell(SliceVal(base, start + c[1].bv, c[2].bv - c[1].bv, vv.name), 'slice'))))
+        return outs
+
     @reg(r'^<Vec<u8> as Deref(Mut)?>::deref(_mut)?$|^Vec::<u8>::as_(mut_)?slice$|^<Vec<u8> as AsRef<\[u8\]>>::as_ref$')
     def v_deref(ex, st, fn, argv):
         return [(st, argv[0])]
